@@ -412,7 +412,7 @@ package mcap
     safety C14
     requires wfSizer(w) && !failed(sinkS(w))
     touches w
-    writesto sinkS(w), hash w.crc.crc
+    writesto sinkS(w), hash ite(w.crc != nil, w.crc.crc, nil)
     ensures wfSizer(w) && sinkS(w) == old(sinkS(w))
     ensures [hash-fed-what-is-written] {C06} w.crc != nil ==> w.crc.crc == old(w.crc.crc) && ghost(crc_hi, w.crc.crc) == old(ghost(crc_hi, w.crc.crc)) + len(p)
         && ghost(crc_last, w.crc.crc) == slid(p) && ghost(wr_last, sinkS(w)) == slid(p)
@@ -431,19 +431,25 @@ package mcap
 /*@ func (*writeSizer).Checksum
     safety C14
     requires wfSizer(w)
+    touches nothing
+    writesto nothing
+    ensures [checksum-is-hash-sum-or-zero] {C06} result == ite(w.crc != nil, crcsum(w.crc.crc, ghost(crc_hi, w.crc.crc)), 0)
 @*/
 
 /*@ func (*writeSizer).ResetCRC
     safety C14
     requires wfSizer(w)
     touches w.crc
+    writesto hash ite(w.crc != nil, w.crc.crc, nil)
     ensures wfSizer(w) && sinkS(w) == old(sinkS(w)) && w.size == old(w.size)
+    ensures [reset-starts-a-new-hash] {C06} (w.crc != nil) == old(w.crc != nil) && (w.crc != nil ==> w.crc == old(w.crc) && ghost(crc_hi, w.crc.crc) == 0 && fresh(w.crc.crc)) && offered(sinkS(w)) == old(offered(sinkS(w)))
 @*/
 
 /*@ func newWriteSizer
     safety C14
     requires w != nil
     ensures fresh(result) && wfSizer(result) && sinkS(result) == w && result.size == 0
+    ensures [new-sizer-hash-empty] {C06} (result.crc != nil) == calculateCRC && (calculateCRC ==> ghost(crc_hi, result.crc.crc) == 0)
 @*/
 
 /*@ func (*countingCRCWriter).Write
@@ -451,11 +457,14 @@ package mcap
     safety C14
     requires wfCounting(c) && !failed(c.w)
     touches c
-    writesto c.w
+    writesto c.w, hash c.crc
     ensures wfCounting(c) && c.w == old(c.w)
     ensures failed(c.w) == (r1 != nil)
     ensures c.size == old(c.size) + len(p) || c.size == old(c.size) + len(p) - 18446744073709551616
     ensures r0 >= 0 && r0 <= len(p) && (r0 < len(p) ==> r1 != nil)
+    ensures [chunk-hash-fed-what-is-written] {C06} c.crc == old(c.crc) && c.computeCRC == old(c.computeCRC) && ghost(wr_last, c.w) == slid(p)
+        && (c.computeCRC ==> ghost(crc_hi, c.crc) == old(ghost(crc_hi, c.crc)) + len(p) && ghost(crc_last, c.crc) == slid(p))
+        && (!c.computeCRC ==> ghost(crc_hi, c.crc) == old(ghost(crc_hi, c.crc)))
 @*/
 
 /*@ func (*crcWriter).Write
@@ -469,6 +478,17 @@ package mcap
 @*/
 /*@ func (*Writer).writeRecord
     inline
+@*/
+
+/*@ spec crcCfg(w) = (w.w.crc != nil) == w.opts.IncludeCRC
+    spec chunkCrcInv(w) = w.opts.Chunked ==> w.compressedWriter.computeCRC == w.opts.IncludeCRC && w.compressedWriter.size >= 0
+        && (w.w.crc != nil ==> w.compressedWriter.crc != w.w.crc.crc)
+        && ghost(crc_hi, w.compressedWriter.crc) == ite(w.opts.IncludeCRC, w.compressedWriter.size, 0)
+    spec crcInv(w) = crcCfg(w) && chunkCrcInv(w)
+    spec fileHash(w) = ite(w.w.crc != nil, w.w.crc.crc, nil)
+    spec crcFrom(w) = offered(sink(w)) - ghost(crc_hi, w.w.crc.crc)
+    spec fileCrcKept(w, h0, f0) = w.opts.IncludeCRC ==> w.w.crc.crc == h0 && crcFrom(w) == f0
+    spec chunkRoom(w) = w.opts.Chunked && !w.closed ==> w.compressedWriter.size < 4611686018427387904
 @*/
 
 /*@ spec wfMsgIndex(idx) = idx != nil && 0 <= idx.currentIndex && idx.currentIndex <= len(idx.Records)
@@ -514,54 +534,76 @@ package mcap
     tags C14
     safety C14
     requires wfWriter(w) && header != nil && okSink(w)
-    writesto sink(w)
+    writesto sink(w), hash fileHash(w)
     ensures wfWriter(w) && sink(w) == old(sink(w))
     ensures failed(sink(w)) ==> r0 != nil
+    requires [crc-inv] {C06} crcInv(w)
+    ensures [crc-inv] {C06} crcInv(w)
+    ensures [file-crc-range-kept] {C06} fileCrcKept(w, old(w.w.crc.crc), old(crcFrom(w)))
 @*/
 
 /*@ func (*Writer).WriteFooter
     tags C14
     safety C14
     requires wfWriter(w) && f != nil && okSink(w)
-    writesto sink(w)
+    writesto sink(w), hash fileHash(w)
     ensures wfWriter(w) && sink(w) == old(sink(w))
     ensures failed(sink(w)) ==> r0 != nil
+    requires [crc-inv] {C06} crcInv(w)
+    ensures [crc-inv] {C06} crcInv(w)
+    ensures [file-crc-range-kept] {C06} fileCrcKept(w, old(w.w.crc.crc), old(crcFrom(w)))
+    call Write#1 assert [footer-first-25-bytes] {C05 C06} len(arg0) == 25 && le64at(arg0, 1) == 20 && le64at(arg0, 9) == f.SummaryStart && le64at(arg0, 17) == f.SummaryOffsetStart
+    call Write#2 assert [summary-crc-covers-through-summary-offset-start-field] {C06} len(arg0) == 4
+        && le32at(arg0, 0) == ite(w.w.crc != nil, crcsum(w.w.crc.crc, old(ghost(crc_hi, w.w.crc.crc)) + 25), 0)
 @*/
 
 /*@ func (*Writer).WriteDataEnd
     tags C14
     safety C14
     requires wfWriter(w) && e != nil && okSink(w)
-    writesto sink(w)
+    writesto sink(w), hash fileHash(w)
     ensures wfWriter(w) && sink(w) == old(sink(w))
     ensures failed(sink(w)) ==> r0 != nil
+    requires [crc-inv] {C06} crcInv(w)
+    ensures [crc-inv] {C06} crcInv(w)
+    ensures [file-crc-range-kept] {C06} fileCrcKept(w, old(w.w.crc.crc), old(crcFrom(w)))
+    call writeRecord#1 assert [data-end-carries-the-crc] {C06} len(arg2) == 4 && le32at(arg2, 0) == e.DataSectionCRC
 @*/
 
 /*@ func (*Writer).WriteSummaryOffset
     tags C14
     safety C14
     requires wfWriter(w) && s != nil && okSink(w)
-    writesto sink(w)
+    writesto sink(w), hash fileHash(w)
     ensures wfWriter(w) && sink(w) == old(sink(w))
     ensures failed(sink(w)) ==> r0 != nil
+    requires [crc-inv] {C06} crcInv(w)
+    ensures [crc-inv] {C06} crcInv(w)
+    ensures [file-crc-range-kept] {C06} fileCrcKept(w, old(w.w.crc.crc), old(crcFrom(w)))
 @*/
 
 /*@ func (*Writer).WriteMetadataIndex
     tags C14
     safety C14
     requires wfWriter(w) && idx != nil && okSink(w)
-    writesto sink(w)
+    writesto sink(w), hash fileHash(w)
     ensures wfWriter(w) && sink(w) == old(sink(w))
     ensures failed(sink(w)) ==> r0 != nil
+    requires [crc-inv] {C06} crcInv(w)
+    ensures [crc-inv] {C06} crcInv(w)
+    ensures [file-crc-range-kept] {C06} fileCrcKept(w, old(w.w.crc.crc), old(crcFrom(w)))
 @*/
 
 /*@ func (*Writer).WriteAttachmentIndex
     tags C14
     safety C14
     requires wfWriter(w) && idx != nil && okSink(w)
-    writesto sink(w)
+    writesto sink(w), hash fileHash(w)
     ensures wfWriter(w) && sink(w) == old(sink(w))
     ensures failed(sink(w)) ==> r0 != nil
+    requires [crc-inv] {C06} crcInv(w)
+    ensures [crc-inv] {C06} crcInv(w)
+    ensures [file-crc-range-kept] {C06} fileCrcKept(w, old(w.w.crc.crc), old(crcFrom(w)))
 @*/
 
 /*@ func (*countingCRCWriter).Size
@@ -574,6 +616,7 @@ package mcap
     requires wfCounting(c)
     touches nothing
     writesto nothing
+    ensures [crc-is-hash-sum] {C06} result == crcsum(c.crc, ghost(crc_hi, c.crc))
 @*/
 /*@ func (*countingCRCWriter).Close
     safety C14
@@ -591,7 +634,8 @@ package mcap
     safety C14
     requires wfCounting(c)
     touches nothing
-    writesto nothing
+    writesto hash c.crc
+    ensures [chunk-hash-reset] {C06} ghost(crc_hi, c.crc) == 0
 @*/
 /*@ func (*countingCRCWriter).ResetSize
     safety C14
@@ -624,6 +668,8 @@ package mcap
     ensures [counts-inv] {C08} old(countsInv(w)) ==> countsInv(w)
     ensures [schema-count] {C08} w.Statistics.SchemaCount == ite(old(in(w.schemas, s.ID)), old(w.Statistics.SchemaCount), uint16(old(w.Statistics.SchemaCount) + 1)) && in(w.schemas, s.ID)
     ensures [schema-others] {C08} w.Statistics == old(w.Statistics) && w.Statistics.ChannelCount == old(w.Statistics.ChannelCount) && w.Statistics.MessageCount == old(w.Statistics.MessageCount) && w.Statistics.ChunkCount == old(w.Statistics.ChunkCount) && w.Statistics.MetadataCount == old(w.Statistics.MetadataCount) && w.Statistics.AttachmentCount == old(w.Statistics.AttachmentCount)
+    requires [crc-inv] {C06} crcInv(w)
+    ensures [crc-inv] {C06} crcInv(w)
 @*/
 /*@ func (*Writer).AddChannel
     safety C14
@@ -635,71 +681,93 @@ package mcap
     ensures [counts-inv] {C08} old(countsInv(w)) ==> countsInv(w)
     ensures [channel-count] {C08} w.Statistics.ChannelCount == ite(old(in(w.channels, c.ID)), old(w.Statistics.ChannelCount), uint32(old(w.Statistics.ChannelCount) + 1)) && in(w.channels, c.ID)
     ensures [channel-others] {C08} w.Statistics == old(w.Statistics) && w.Statistics.SchemaCount == old(w.Statistics.SchemaCount) && w.Statistics.MessageCount == old(w.Statistics.MessageCount) && w.Statistics.ChunkCount == old(w.Statistics.ChunkCount) && w.Statistics.MetadataCount == old(w.Statistics.MetadataCount) && w.Statistics.AttachmentCount == old(w.Statistics.AttachmentCount)
+    requires [crc-inv] {C06} crcInv(w)
+    ensures [crc-inv] {C06} crcInv(w)
 @*/
 
 /*@ func (*Writer).WriteSchema
     tags C14
     safety C14
     requires wfWriter(w) && okSinks(w)
-    writesto sink(w), w.compressedWriter.w
+    writesto sink(w), w.compressedWriter.w, hash fileHash(w), hash w.compressedWriter.crc
     ensures wfWriter(w) && sink(w) == old(sink(w)) && w.opts == old(w.opts) && w.closed == old(w.closed)
     ensures old(wfLists(w)) ==> wfLists(w)
     ensures old(wfIndexes(w)) ==> wfIndexes(w)
     ensures failed(sink(w)) ==> err != nil
     ensures [counts-inv] {C08} old(countsInv(w)) ==> countsInv(w)
     ensures w.opts.Chunked && !old(w.closed) ==> (failed(w.compressedWriter.w) ==> err != nil)
+    requires [crc-inv] {C06} crcInv(w)
+    ensures [crc-inv] {C06} crcInv(w)
+    ensures [file-crc-range-kept] {C06} fileCrcKept(w, old(w.w.crc.crc), old(crcFrom(w)))
+    requires [chunk-below-2^62-bytes] {C06} chunkRoom(w)
 @*/
 
 /*@ func (*Writer).WriteChannel
     tags C14
     safety C14
     requires wfWriter(w) && c != nil && okSinks(w)
-    writesto sink(w), w.compressedWriter.w
+    writesto sink(w), w.compressedWriter.w, hash fileHash(w), hash w.compressedWriter.crc
     ensures wfWriter(w) && sink(w) == old(sink(w)) && w.opts == old(w.opts) && w.closed == old(w.closed)
     ensures old(wfLists(w)) ==> wfLists(w)
     ensures old(wfIndexes(w)) ==> wfIndexes(w)
     ensures failed(sink(w)) ==> r0 != nil
     ensures [counts-inv] {C08} old(countsInv(w)) ==> countsInv(w)
     ensures w.opts.Chunked && !old(w.closed) ==> (failed(w.compressedWriter.w) ==> r0 != nil)
+    requires [crc-inv] {C06} crcInv(w)
+    ensures [crc-inv] {C06} crcInv(w)
+    ensures [file-crc-range-kept] {C06} fileCrcKept(w, old(w.w.crc.crc), old(crcFrom(w)))
+    requires [chunk-below-2^62-bytes] {C06} chunkRoom(w)
 @*/
 
 /*@ func (*Writer).WriteMessageIndex
     tags C14
     safety C14
     requires wfWriter(w) && wfMsgIndex(idx) && okSink(w)
-    writesto sink(w)
+    writesto sink(w), hash fileHash(w)
     ensures wfWriter(w) && sink(w) == old(sink(w))
     ensures failed(sink(w)) ==> r0 != nil
     loop 1 invariant offset == 6 + 16 * iter && iter <= idx.currentIndex && len(w.msg) >= 6 + 16 * idx.currentIndex
+    requires [crc-inv] {C06} crcInv(w)
+    ensures [crc-inv] {C06} crcInv(w)
+    ensures [file-crc-range-kept] {C06} fileCrcKept(w, old(w.w.crc.crc), old(crcFrom(w)))
 @*/
 
 /*@ func (*Writer).WriteStatistics
     tags C14
     safety C14
     requires wfWriter(w) && s != nil && okSink(w)
-    writesto sink(w)
+    writesto sink(w), hash fileHash(w)
     ensures wfWriter(w) && sink(w) == old(sink(w))
     ensures failed(sink(w)) ==> r0 != nil
+    requires [crc-inv] {C06} crcInv(w)
+    ensures [crc-inv] {C06} crcInv(w)
+    ensures [file-crc-range-kept] {C06} fileCrcKept(w, old(w.w.crc.crc), old(crcFrom(w)))
 @*/
 
 /*@ func (*Writer).WriteMetadata
     tags C14
     safety C14
     requires wfWriter(w) && m != nil && okSink(w)
-    writesto sink(w)
+    writesto sink(w), hash fileHash(w)
     ensures wfWriter(w) && sink(w) == old(sink(w))
     ensures failed(sink(w)) ==> r0 != nil
     ensures [counts-inv] {C08} old(countsInv(w)) ==> countsInv(w)
     ensures [metadata-count] {C08} r0 == nil ==> w.Statistics == old(w.Statistics) && w.Statistics.MetadataCount == uint32(old(w.Statistics.MetadataCount) + 1) && len(w.MetadataIndexes) == old(len(w.MetadataIndexes)) + 1
+    requires [crc-inv] {C06} crcInv(w)
+    ensures [crc-inv] {C06} crcInv(w)
+    ensures [file-crc-range-kept] {C06} fileCrcKept(w, old(w.w.crc.crc), old(crcFrom(w)))
 @*/
 
 /*@ func (*Writer).WriteChunkIndex
     tags C14
     safety C14
     requires wfWriter(w) && idx != nil && okSink(w)
-    writesto sink(w)
+    writesto sink(w), hash fileHash(w)
     ensures wfWriter(w) && sink(w) == old(sink(w))
     ensures failed(sink(w)) ==> r0 != nil
+    requires [crc-inv] {C06} crcInv(w)
+    ensures [crc-inv] {C06} crcInv(w)
+    ensures [file-crc-range-kept] {C06} fileCrcKept(w, old(w.w.crc.crc), old(crcFrom(w)))
 @*/
 
 /*@ func (*Writer).WriteChunkWithIndexes
@@ -707,9 +775,12 @@ package mcap
     safety C14
     requires wfWriter(w) && c != nil && okSink(w)
     requires forall(k, 0, len(messageIndexes), wfMsgIndex(messageIndexes[k]))
-    writesto sink(w)
+    writesto sink(w), hash fileHash(w)
     ensures wfWriter(w) && sink(w) == old(sink(w)) && w.opts == old(w.opts)
     ensures failed(sink(w)) ==> r0 != nil
+    requires [crc-inv] {C06} crcInv(w)
+    ensures [crc-inv] {C06} crcInv(w)
+    ensures [file-crc-range-kept] {C06} fileCrcKept(w, old(w.w.crc.crc), old(crcFrom(w)))
 @*/
 
 /*@ func (*Writer).writeChunkWithIndexes
@@ -717,7 +788,7 @@ package mcap
     safety C14
     requires wfWriter(w) && c != nil && okSink(w)
     requires forall(k, 0, len(messageIndexes), wfMsgIndex(messageIndexes[k]))
-    writesto sink(w)
+    writesto sink(w), hash fileHash(w)
     ensures wfWriter(w) && sink(w) == old(sink(w)) && w.opts == old(w.opts)
     ensures failed(sink(w)) ==> r0 != nil
     ensures [counts-inv] {C08} old(countsInv(w)) ==> countsInv(w)
@@ -731,13 +802,21 @@ package mcap
     loop 1 invariant wfWriter(w) && sink(w) == old(sink(w)) && w.opts == old(w.opts) && !failed(sink(w)) && messageIndexOffsets != nil
     loop 1 invariant [counters-kept] {C08} w.Statistics == old(w.Statistics) && w.Statistics.ChannelMessageCounts == old(w.Statistics.ChannelMessageCounts)
         && forall(k, 0, 65536, w.Statistics.ChannelMessageCounts[k] == old(w.Statistics.ChannelMessageCounts[k]))
+    requires [crc-inv] {C06} crcInv(w)
+    ensures [crc-inv] {C06} crcInv(w)
+    ensures [file-crc-range-kept] {C06} fileCrcKept(w, old(w.w.crc.crc), old(crcFrom(w)))
+    call Write#1 assert [chunk-header-fields] {C05 C06} len(arg0) == 49 + len(c.Compression) && le64at(arg0, 1) == wrap64(40 + len(c.Compression) + len(c.Records))
+        && le64at(arg0, 9) == c.MessageStartTime && le64at(arg0, 17) == c.MessageEndTime && le64at(arg0, 25) == c.UncompressedSize
+        && le32at(arg0, 33) == c.UncompressedCRC && le32at(arg0, 37) == uint32(len(c.Compression)) && le64at(arg0, 41 + len(c.Compression)) == len(c.Records)
+    call Write#2 assert [chunk-records-follow-header] {C05} slid(arg0) == slid(c.Records)
+    loop 1 invariant [crc-state-kept] {C06} crcInv(w) && fileCrcKept(w, old(w.w.crc.crc), old(crcFrom(w)))
 @*/
 
 /*@ func (*Writer).flushActiveChunk
     tags C14
     safety C14
     requires wfWriter(w) && wfIndexes(w) && w.opts.Chunked && okSinks(w)
-    writesto sink(w), w.compressedWriter.w
+    writesto sink(w), w.compressedWriter.w, hash fileHash(w), hash w.compressedWriter.crc
     ensures wfWriter(w) && wfIndexes(w) && sink(w) == old(sink(w)) && w.opts == old(w.opts)
     ensures old(wfLists(w)) ==> wfLists(w)
     ensures failed(sink(w)) ==> r0 != nil
@@ -748,6 +827,13 @@ package mcap
     loop 1 invariant wfWriter(w) && wfIndexes(w) && sink(w) == old(sink(w)) && w.opts == old(w.opts) && okSinks(w)
         && forall(k, 0, len(messageIndexes), wfMsgIndex(messageIndexes[k])) && (old(wfLists(w)) ==> wfLists(w))
     loop 2 invariant wfWriter(w) && wfIndexes(w) && sink(w) == old(sink(w)) && w.opts == old(w.opts) && okSinks(w) && (old(wfLists(w)) ==> wfLists(w))
+    requires [crc-inv] {C06} crcInv(w)
+    ensures [crc-inv] {C06} crcInv(w)
+    ensures [file-crc-range-kept] {C06} fileCrcKept(w, old(w.w.crc.crc), old(crcFrom(w)))
+    call writeChunkWithIndexes#1 assert [chunk-crc-covers-uncompressed-bytes] {C06} arg0.UncompressedCRC == ite(w.opts.IncludeCRC, crcsum(old(w.compressedWriter.crc), old(w.compressedWriter.size)), 0)
+    call writeChunkWithIndexes#1 assert [chunk-size-is-uncompressed-bytes] {C05 C06} arg0.UncompressedSize == old(w.compressedWriter.size)
+    loop 1 invariant [crc-state-kept] {C06} fileCrcKept(w, old(w.w.crc.crc), old(crcFrom(w))) && crcCfg(w)
+    loop 2 invariant [crc-state-kept] {C06} crcInv(w) && fileCrcKept(w, old(w.w.crc.crc), old(crcFrom(w)))
 @*/
 
 /*@ func (*Writer).WriteMessage
@@ -755,7 +841,7 @@ package mcap
     safety C14
     requires wfWriter(w) && wfIndexes(w) && m != nil && okSinks(w)
     requires statsTimeInv(w) && w.Statistics.MessageCount < 18446744073709551615
-    writesto sink(w), w.compressedWriter.w
+    writesto sink(w), w.compressedWriter.w, hash fileHash(w), hash w.compressedWriter.crc
     ensures wfWriter(w) && wfIndexes(w) && sink(w) == old(sink(w)) && w.opts == old(w.opts)
     ensures failed(sink(w)) ==> r0 != nil
     ensures [counts-inv] {C08} old(countsInv(w)) ==> countsInv(w)
@@ -766,6 +852,10 @@ package mcap
     ensures [channel-count] {C08} r0 == nil ==> w.Statistics.ChannelMessageCounts[m.ChannelID] == wrap64(old(w.Statistics.ChannelMessageCounts[m.ChannelID]) + 1)
     ensures [other-channels] {C08} r0 == nil ==> forall(k, 0, 65536, k != m.ChannelID ==> w.Statistics.ChannelMessageCounts[k] == old(w.Statistics.ChannelMessageCounts[k]))
     ensures [other-counters] {C08} r0 == nil ==> w.Statistics.SchemaCount == old(w.Statistics.SchemaCount) && w.Statistics.ChannelCount == old(w.Statistics.ChannelCount) && w.Statistics.AttachmentCount == old(w.Statistics.AttachmentCount) && w.Statistics.MetadataCount == old(w.Statistics.MetadataCount)
+    requires [crc-inv] {C06} crcInv(w)
+    ensures [crc-inv] {C06} crcInv(w)
+    ensures [file-crc-range-kept] {C06} fileCrcKept(w, old(w.w.crc.crc), old(crcFrom(w)))
+    requires [chunk-below-2^62-bytes] {C06} chunkRoom(w)
 @*/
 
 /*@ func newCRCWriter
@@ -776,6 +866,7 @@ package mcap
     tags C14
     safety C14
     requires wfWriter(w) && a != nil && a.Data != nil && okSink(w)
+    writesto sink(w), hash fileHash(w), reader a.Data
     ensures wfWriter(w) && sink(w) == old(sink(w))
     ensures failed(sink(w)) ==> r0 != nil
     ensures [size-mismatch-or-source-failure-is-error] {C14} r0 == nil ==> offered(sink(w)) == old(offered(sink(w))) + 45 + len(a.Name) + len(a.MediaType) + a.DataSize
@@ -795,18 +886,22 @@ package mcap
         && w.Statistics.ChannelCount == old(w.Statistics.ChannelCount) && w.Statistics.ChunkCount == old(w.Statistics.ChunkCount) && w.Statistics.MetadataCount == old(w.Statistics.MetadataCount)
         && w.Statistics.MessageStartTime == old(w.Statistics.MessageStartTime) && w.Statistics.MessageEndTime == old(w.Statistics.MessageEndTime)
     call Copy#1 invariant wfWriter(w) && sink(w) == old(sink(w)) && !failed(sink(w))
+    call Copy#1 invariant [crc-state-kept] {C06} crcInv(w) && fileCrcKept(w, old(w.w.crc.crc), old(crcFrom(w)))
     call Copy#1 invariant [bytes-so-far] {C14 C05 C06} offered(sink(w)) == old(offered(sink(w))) + offset + copied
         && w.w.size == wrap64(old(w.w.size) + offset + copied)
     call Copy#1 invariant [attachment-crc-tracks-output] {C06} ghost(crc_hi, crcWriter.crc) == offset - 9 + copied
     call Write#3 assert [attachment-crc-covers-fields-after-length] {C06} len(arg0) == 4
         && le32at(arg0, 0) == crcsum(crcWriter.crc, offered(sink(w)) - old(offered(sink(w))) - 9)
+    requires [crc-inv] {C06} crcInv(w)
+    ensures [crc-inv] {C06} crcInv(w)
+    ensures [file-crc-range-kept] {C06} fileCrcKept(w, old(w.w.crc.crc), old(crcFrom(w)))
 @*/
 
 /*@ func (*Writer).writeSummarySection
     tags C14
     safety C14
     requires wfWriter(w) && wfIndexes(w) && wfLists(w) && okSinks(w) && w.closed
-    writesto sink(w), w.compressedWriter.w
+    writesto sink(w), w.compressedWriter.w, hash fileHash(w), hash w.compressedWriter.crc
     ensures wfWriter(w) && sink(w) == old(sink(w)) && w.opts == old(w.opts) && w.closed
     ensures failed(sink(w)) ==> r1 != nil
     ensures forall(k, 0, len(r0), r0[k] != nil)
@@ -815,15 +910,29 @@ package mcap
     loop 3 invariant wfWriter(w) && sink(w) == old(sink(w)) && w.opts == old(w.opts) && w.closed && okSinks(w) && wfLists(w) && wfIndexes(w) && forall(k, 0, len(offsets), offsets[k] != nil)
     loop 4 invariant wfWriter(w) && sink(w) == old(sink(w)) && w.opts == old(w.opts) && w.closed && okSinks(w) && wfLists(w) && wfIndexes(w) && forall(k, 0, len(offsets), offsets[k] != nil)
     loop 5 invariant wfWriter(w) && sink(w) == old(sink(w)) && w.opts == old(w.opts) && w.closed && okSinks(w) && wfLists(w) && wfIndexes(w) && forall(k, 0, len(offsets), offsets[k] != nil)
+    requires [crc-inv] {C06} crcInv(w)
+    ensures [crc-inv] {C06} crcInv(w)
+    ensures [file-crc-range-kept] {C06} fileCrcKept(w, old(w.w.crc.crc), old(crcFrom(w)))
+    loop 1 invariant [crc-state-kept] {C06} crcInv(w) && fileCrcKept(w, old(w.w.crc.crc), old(crcFrom(w)))
+    loop 2 invariant [crc-state-kept] {C06} crcInv(w) && fileCrcKept(w, old(w.w.crc.crc), old(crcFrom(w)))
+    loop 3 invariant [crc-state-kept] {C06} crcInv(w) && fileCrcKept(w, old(w.w.crc.crc), old(crcFrom(w)))
+    loop 4 invariant [crc-state-kept] {C06} crcInv(w) && fileCrcKept(w, old(w.w.crc.crc), old(crcFrom(w)))
+    loop 5 invariant [crc-state-kept] {C06} crcInv(w) && fileCrcKept(w, old(w.w.crc.crc), old(crcFrom(w)))
 @*/
 
 /*@ func (*Writer).Close
     tags C14
     safety C14
     requires wfWriter(w) && wfIndexes(w) && wfLists(w) && okSinks(w)
-    writesto sink(w), w.compressedWriter.w
+    writesto sink(w), w.compressedWriter.w, hash fileHash(w), hash w.compressedWriter.crc
     ensures failed(sink(w)) ==> r0 != nil
     loop 1 invariant wfWriter(w) && sink(w) == old(sink(w)) && w.opts == old(w.opts) && !failed(sink(w)) && forall(k, 0, len(summaryOffsets), summaryOffsets[k] != nil)
+    requires [crc-inv] {C06} crcInv(w)
+    call WriteDataEnd#1 assert [data-crc-covers-file-start-to-data-end] {C06} arg0.DataSectionCRC == ite(w.opts.IncludeCRC, crcsum(old(w.w.crc.crc), offered(sink(w)) - old(crcFrom(w))), 0)
+    call writeSummarySection#1 assert [summary-crc-starts-after-data-end] {C06} w.opts.IncludeCRC ==> ghost(crc_hi, w.w.crc.crc) == 0
+    call writeSummarySection#1 label S
+    call WriteFooter#1 assert [summary-crc-covers-from-summary-start] {C06} w.opts.IncludeCRC ==> crcFrom(w) == at(S, offered(sink(w)))
+    loop 1 invariant [crc-state-kept] {C06} crcInv(w) && (w.opts.IncludeCRC ==> w.w.crc.crc == at(S, w.w.crc.crc) && crcFrom(w) == at(S, offered(sink(w))))
 @*/
 
 /*@ func NewWriter
@@ -832,6 +941,8 @@ package mcap
     requires w != nil && opts != nil && !failed(w)
     ensures r1 == nil ==> wfWriter(r0) && wfIndexes(r0) && sink(r0) == w
     ensures failed(w) ==> r1 != nil
+    ensures [crc-inv] {C06} r1 == nil ==> crcInv(r0)
+    ensures [file-crc-covers-from-first-byte] {C06} r1 == nil && opts.IncludeCRC ==> crcFrom(r0) == old(offered(w))
 @*/
 
 // ---------------------------------------------------------------------------------------------
